@@ -601,6 +601,11 @@ def r11_eoi_contained(c, facts, rule='C11.R11'):
 
 
 def run(c, facts):
+    import lexrules
+    c.run(lambda c: lexrules.no_skip(c, facts, 'C11.R12'))
+    import c16 as _c16
+    R13 = c.rule('C11.R13', 'RANGE-ENDS: the range published for a span is the conversion of its two ends against the whole text (shared with C16.R4)')
+    c.shared(R13, _c16.r4_range_ends, 'C16.R4', facts)
     c.run(r11_eoi_contained, facts)
     c.run(r10_span_provenance, facts)
     import c16
